@@ -877,3 +877,29 @@ Example license_filter_example :
      ([false; true], [[mit]]); ([false; false], [[mit]; [eu]])]
   = [BOk false; BOk true; BOk false; BOk false; BOk true].
 Proof. reflexivity. Qed.
+
+(* ================================================================== Licenses.groups *)
+Lemma closure_reach_proof raw : forall n g x, In x (closure raw n g) <-> reach raw n g x.
+Proof.
+  induction n as [|n IH]; intros g x.
+  - cbn. split; [intros [] | intro H; inversion H].
+  - cbn [closure]. rewrite in_flat_map. split.
+    + intros [m [Hm Hx]]. destruct m as [|c h].
+      * destruct Hx as [<- | []]. apply reach_here; [exact Hm | reflexivity].
+      * destruct (N.eqb c AT) eqn:Ec.
+        -- apply N.eqb_eq in Ec. subst c. apply (reach_ref raw n g h x Hm). apply IH. exact Hx.
+        -- destruct Hx as [<- | []]. apply reach_here; [exact Hm|]. cbn. exact Ec.
+    + intro H. inversion H as [n' g' x' Hin Hr | n' g' h x' Hin Hr]; subst.
+      * exists x. split; [exact Hin|]. destruct x as [|c h]; [left; reflexivity|].
+        cbn in Hr. rewrite Hr. left. reflexivity.
+      * exists (AT :: h). split; [exact Hin|]. rewrite N.eqb_refl. apply IH. exact Hr.
+Qed.
+
+(* EVERYTHING -> @FREE -> @COPYLEFT defined top-down: the outer group still gets the innermost members *)
+Example closure_example :
+  let E := [69%N] in let F := [70%N] in let C := [67%N] in
+  let gpl := [103%N] in let mit := [109%N] in
+  map (fun kv => (fst kv, canon (snd kv)))
+      (close_groups [(E, [AT :: F; [120%N]]); (F, [AT :: C; mit; AT :: [77%N]]); (C, [gpl; AT :: C])])
+  = [(E, [gpl; mit; [120%N]]); (F, [gpl; mit]); (C, [gpl])].
+Proof. reflexivity. Qed.
